@@ -350,7 +350,17 @@ class ScheduleStep(_Sched):
 
     def native_call(self, m):
         from contracts import scheduler_native as N
+        if "tiered_case" in m:
+            return N.replay_schedule_step_tiered(m["tiered_case"])
         return N.replay_schedule_step(m)
+
+    def native_search(self, budget):
+        # a grouped simulator (tiered time of depth 2): queued steps and the step to schedule
+        import itertools
+        times = [[3, 0], [3, 1], [3, 2], [4, 0], [2, 5]]
+        for queued in ([], [[3, 1]], [[3, 1], [4, 0]], [[4, 0]], [[3, 0], [3, 2]]):
+            for x in times:
+                yield {"tiered_case": {"queued": queued, "x": x}}
 
     def model_values(self, m):
         d = self._M.dump_model(m, self._h0)
